@@ -445,6 +445,31 @@ k_oscore(void) {
   cs_pump(&S, 400, 120000);
 }
 
+/* K15: bodies whose blocks are larger than a fresh PDU buffer (1024-byte blocks): the first block only fits after the PDU buffer has
+ * been re-allocated inside coap_add_data_large_*() */
+static void
+k_bigblocks(void) {
+  coap_pdu_t *p = cs_request(&S, S.sess, 1, COAP_REQUEST_CODE_PUT, "put", 0x35);
+  if (p) {
+    size_t n = 2500;
+    uint8_t *b = malloc(n);
+    for (size_t i = 0; i < n; i++)
+      b[i] = cs_pat(i);
+    S.large_calls++;
+    if (!coap_add_data_large_request(S.sess, p, n, b, cs_release, b))
+      coap_delete_pdu(p);
+    else
+      coap_send(S.sess, p);
+    cs_pump(&S, 600, 200000);
+  }
+  cs_big_len = 2500;
+  p = cs_request(&S, S.sess, 1, COAP_REQUEST_CODE_GET, "big", 0x45);
+  if (p) {
+    coap_send(S.sess, p);
+    cs_pump(&S, 600, 200000);
+  }
+}
+
 /* K14: resource discovery with a listing that needs a block-wise response (libcoap builds the listing, hands it to the large
  * response machinery and answers the follow-up block requests itself) */
 static void
@@ -487,7 +512,7 @@ static struct {
   int setup_injected; /* allocation failures also during context / endpoint / session / resource set-up */
 } K[] = {{"K1-get", k_get, 0},       {"K2-async", k_async, 0}, {"K3-block1", k_block1, 0}, {"K4-block2", k_block2, 0},
          {"K5-observe", k_observe, 0}, {"K7-uri", k_uri, 0},     {"K8-tcp", k_tcp, 0},       {"K9-ws", k_ws, 0},
-         {"K10-setup", k_setup, 1},   {"K11-rawblock1-nosize", k_rawblock1, 0}, {"K12-rawblock2-nosize", k_rawblock2, 0}, {"K13-oscore", k_oscore, 0}, {"K14-wellknown", k_wellknown, 0}};
+         {"K10-setup", k_setup, 1},   {"K11-rawblock1-nosize", k_rawblock1, 0}, {"K12-rawblock2-nosize", k_rawblock2, 0}, {"K13-oscore", k_oscore, 0}, {"K14-wellknown", k_wellknown, 0}, {"K15-bigblocks", k_bigblocks, 0}};
 #define NK ((int)(sizeof K / sizeof K[0]))
 
 static void
@@ -495,6 +520,7 @@ run(void *arg) {
   C = arg;
   ns_init();
   memset(&S, 0, sizeof S);
+  cs_big_len = 100;
   allocs_seen = fails_injected = 0;
   live_blocks = 0;
   fail_site = "";
@@ -557,6 +583,9 @@ run(void *arg) {
     case 11:
       good = S.resp_2xx >= 4 && S.notifications >= 2;
       break;
+    case 13:
+      good = S.srv_put_bytes == 2500 && S.srv_put_ok && S.max_len == 2500;
+      break;
     case 12:
       good = S.resp_2xx >= 4 && S.max_len > 400; /* two listings + the canaries; the listing is > 400 bytes */
       break;
@@ -608,7 +637,7 @@ main(int argc, char **argv) {
     snprintf(names[i], sizeof names[i], "c18:%s:B=%d", cfgs[i].name, cfgs[i].bound);
   vx_ev_rule("catalogue of scenarios (request/response, async separate response, Block1, Block2, observe register+notify+cancel, URI/optlist "
              "helpers + .well-known/core, TCP session with CSM, WebSocket upgrade, set-up/tear-down extras, Block1 upload from / Block2 download from a raw peer that sends no Size1 / Size2, OSCORE server + client session with a protected GET, observe registration and notification) on real client+server contexts; every "
-             "call of coap_malloc_type / coap_realloc_type is a choice point: bound 1 = each single index k fails, bound 2 = every pair (quick: K1, K3, K4, K5, K11, K12; thorough: every scenario); K14 = resource discovery with a block-wise listing; after the scenario a canary exchange on a fresh session and one on the scenario's own session; "
+             "call of coap_malloc_type / coap_realloc_type is a choice point: bound 1 = each single index k fails, bound 2 = every pair (quick: K1, K3, K4, K5, K11, K12; thorough: every scenario); K14 = resource discovery with a block-wise listing; K15 = 2500-byte bodies in 1024-byte blocks (the PDU buffer has to grow for the first block); after the scenario a canary exchange on a fresh session and one on the scenario's own session; "
              "non-trivial = a failure was injected; distinct = distinct observation logs (allocation index + outcome counters)");
   vx_ev_assumption("only allocations through libcoap's funnel fail; GnuTLS / uthash raw malloc are outside (as the property's anchor says)");
   vx_ev_assumption("after the faulted scenario the applications continue with memory available: canary = GET /r on a fresh UDP session");
